@@ -87,6 +87,13 @@ for _pid, _unit in (("C13", "mini"), ("C19", "peano")):
         explanation="denotation theorems about the relation bodies regenerated from the Go source on every run; cell traces of the real relations in every argument mode against the translated bodies; list/arithmetic oracles",
     )
 
+PROPS["C13"]["harness"] = PROPS["C13"]["harness"] + [
+    # the unrolled variants (Go meta-programs over a ground list): against the recursive relations and against coq/Unrolled.v
+    dict(name="unrolled", mode="unrolled", n_quick=300, n_thorough=3000, shards_quick=1, shards_thorough=4, timeout=1500, coq_timeout=1500),
+    # gomini's ConcatO / PrependO in every argument mode, both placeholder policies: against mini.AppendO / ConsO (engines agree) and the list oracle
+    dict(name="concato", mode="concato", n_quick=60, n_thorough=600, shards_quick=4, shards_thorough=8, coq=False, timeout=2400),
+]
+
 PROPS["C17"] = dict(
     model="gen/RelRegex.v (regenerated)",
     gens=[gens.gen_rels],
